@@ -265,7 +265,11 @@ def run_history(rng, upo, ncalls, variant, script=None):
                          shadow=sh["res"], consume=c["consume"], k=c["k"],
                          fault=c["fault"]))
         # documented learning rule (for finding signatures only)
-        if upo == "N" and c["moc"] == "ok" and learned[fam] != "F":
+        # generator functions are lazy: a generator that was closed / dropped
+        # before its first next() never talked to the server and learned
+        # nothing (IterQueryInstances is eager)
+        started = fam == 7 or c["consume"] == "exhaust" or c["k"] >= 1
+        if upo == "N" and c["moc"] == "ok" and learned[fam] != "F" and started:
             if not srv and learned[fam] == "N":
                 learned[fam] = "F"
             elif srv and tradok:
